@@ -605,4 +605,12 @@ def cover_checks(task, ctxs, outdir, timeout=5.0):
         path = os.path.join(outdir, hashlib.sha1(f"{task.name}cover{pi}".encode()).hexdigest()[:16] + ".smt2")
         r = S.check(script, path, timeout=timeout, order=("z3-4.8", "z3-5.1"))
         out.append((pi, r["verdict"]))
+        # reachability guards recorded by the task: conditions under which obligations were proved
+        # must be satisfiable together with the path (else those obligations are vacuous)
+        for k, (label, nhyps, cond) in enumerate(getattr(c, "reach", [])):
+            hs = _augment(list(c.axioms.values()) + c.hyps[:nhyps] + [cond], None, True)
+            script = T.smt_script(hs, None, produce_models=False)
+            path = os.path.join(outdir, hashlib.sha1(f"{task.name}reach{pi}.{k}".encode()).hexdigest()[:16] + ".smt2")
+            r = S.check(script, path, timeout=timeout, order=("z3-4.8", "z3-5.1"))
+            out.append((f"{pi}:reach[{label}]", r["verdict"]))
     return out
